@@ -3,7 +3,7 @@ from __future__ import annotations
 
 import ast
 
-from ..symex import Sym, Falsy, T, SList, Engine, show, simplify
+from ..symex import Sym, Falsy, T, SList, Engine, Raise, show, simplify
 from ..loader import AnalysisError, FuncInfo, ClassInfo, loc
 from ..report import RuleResult
 
@@ -437,7 +437,14 @@ def rule_column7(P) -> RuleResult:
         overridden.append(nm)
         if nm not in ('__iter__', '__reversed__'):
             raise AnalysisError(f'{f.fq}: Column overrides the Sequence mixin method {nm}; its agreement with the 7 fields is not modelled')
-        for p in Engine(P, on_attr=on_attr).paths(f, {'self': COL}):
+        def on_item_col(base, i, e_):
+            # self[i] inside the class: what __getitem__ (decided above) gives for an index, IndexError beyond the 7 fields
+            if base == COL and type(i) is int:
+                if -len(FIELDS) <= i < len(FIELDS):
+                    return T('call', (show(VARS.args[i]), (COL,), ()))
+                raise Raise('IndexError', ('tuple index out of range',))
+            return NotImplemented
+        for p in Engine(P, on_attr=on_attr, on_item=on_item_col, max_unroll=10).paths(f, {'self': COL}):
             ys = [e[1] for e in p.events if e[0] == 'yield']
             if p.outcome == 'return' and p.value is not None and not ys:
                 seq_ = e_items(p.value)
